@@ -455,6 +455,28 @@ func init() {
 	// ---- strings / bytes ----
 	models["strings.Contains"] = func(it *Interp, a []Val) Val { return it.strContains(a[0].(*StrV), a[1].(*StrV)) }
 	models["bytes.Contains"] = models["strings.Contains"]
+	// process memory: atomic.Value is a cell, locks are no-ops (the executor is sequential)
+	models["(*sync/atomic.Value).Store"] = func(it *Interp, a []Val) Val {
+		p, ok := a[0].(Ptr)
+		if !ok || p == nil {
+			it.tpanic("atomic.Value.Store on nil pointer")
+		}
+		*p = &Native{Kind: "atomiccell", Data: a[1]}
+		return nil
+	}
+	models["(*sync/atomic.Value).Load"] = func(it *Interp, a []Val) Val {
+		p, ok := a[0].(Ptr)
+		if !ok || p == nil {
+			it.tpanic("atomic.Value.Load on nil pointer")
+		}
+		if n, isCell := (*p).(*Native); isCell && n.Kind == "atomiccell" {
+			return n.Data.(Val)
+		}
+		return IfaceV{}
+	}
+	for _, m := range []string{"(*sync.Mutex).Lock", "(*sync.Mutex).Unlock", "(*sync.RWMutex).Lock", "(*sync.RWMutex).Unlock", "(*sync.RWMutex).RLock", "(*sync.RWMutex).RUnlock"} {
+		models[m] = func(it *Interp, a []Val) Val { return nil }
+	}
 	models["strings.HasPrefix"] = func(it *Interp, a []Val) Val { return it.strHasPrefix(a[0].(*StrV), a[1].(*StrV)) }
 	models["bytes.HasPrefix"] = models["strings.HasPrefix"]
 	models["strings.HasSuffix"] = func(it *Interp, a []Val) Val { return it.strHasSuffix(a[0].(*StrV), a[1].(*StrV)) }
